@@ -128,14 +128,18 @@ pub fn sweep() -> (bool, String) {
         // authentication
         let id = c.raw_id.to_vec();
         let d = |ty: PublicKeyCredentialType, id: &[u8]| PublicKeyCredentialDescriptor { ty, id: id.to_vec().into(), transports: None };
+        // transport hints are hints: an entry naming the credential selects it whatever transports it lists
+        let dt = |id: &[u8], t: Vec<AuthenticatorTransport>| PublicKeyCredentialDescriptor { ty: PublicKeyCredentialType::PublicKey, id: id.to_vec().into(), transports: Some(t) };
         let lists: Vec<(&str, Option<Vec<PublicKeyCredentialDescriptor>>, bool)> = vec![
             ("absent", None, true), ("[id]", Some(vec![d(PublicKeyCredentialType::PublicKey, &id)]), true),
+            ("[id, transports usb ble]", Some(vec![dt(&id, vec![AuthenticatorTransport::Usb, AuthenticatorTransport::Ble])]), true),
+            ("[id, transports nfc]", Some(vec![dt(&id, vec![AuthenticatorTransport::Nfc])]), true),
             ("[other id]", Some(vec![d(PublicKeyCredentialType::PublicKey, &[9, 9])]), false),
             ("[other id, type unknown]", Some(vec![d(PublicKeyCredentialType::Unknown, &[9, 9])]), false),
         ];
         for (lname, list, found) in lists {
             let req = CredentialRequestOptions { public_key: PublicKeyCredentialRequestOptions { challenge: vec![8, 8, 249].into(), timeout: None, rp_id: rp.map(|s| s.to_string()),
-                allow_credentials: list.as_ref().map(|l| l.iter().map(|x| d(x.ty, &x.id)).collect()), user_verification: uv, hints: None, attestation: Default::default(), attestation_formats: None, extensions: None } };
+                allow_credentials: list.as_ref().map(|l| l.iter().map(|x| PublicKeyCredentialDescriptor { ty: x.ty, id: x.id.clone(), transports: x.transports.clone() }).collect()), user_verification: uv, hints: None, attestation: Default::default(), attestation_formats: None, extensions: None } };
             let actx = format!("{ctx}; authenticate allow list {lname}");
             store.lookups.lock().unwrap().clear();
             let r = block_on(client.authenticate(&origin, req, DefaultClientData));
@@ -155,7 +159,7 @@ pub fn sweep() -> (bool, String) {
             }
         }
     } } } } } }
-    (false, format!("client ceremonies agree with the request in {n} registration scenarios (each followed by an excluded registration and 4 authentications)"))
+    (false, format!("client ceremonies agree with the request in {n} registration scenarios (each followed by an excluded registration and 6 authentications)"))
 }
 
 /// C09, client side: hashed and pre-hashed PRF inputs through the real `Client::authenticate`.  A pre-hashed input that is not 32 bytes
